@@ -16,6 +16,12 @@ type BCIssue struct {
 	Path  string // "" for the main program, "func:name" / "computed:expr" for nested bodies
 }
 
+var operandKind = map[string]string{
+	"push.int": "int", "push.flt": "float", "push.str": "string", "push.arr": "int", "push.dict": "int", "invoke": "int", "ld.fs": "int", "popn": "int",
+	"jmp": "int", "jne": "int", "ld": "string", "ld.d": "string", "ld.raw": "string", "store": "string", "attr.get": "string", "attr.set": "string",
+	"mark.detail": "span", "st.mod": "stinfo", "push.func": "value", "push.computed": "value",
+}
+
 type bcState struct {
 	h      int
 	blocks []int
@@ -188,6 +194,10 @@ func verifyOne(code []ds.VerifOp, path string) []BCIssue {
 				return 0, false
 			}
 			return int(c.Int), true
+		}
+		// operand kinds: the dispatch loop type-asserts operands without checking
+		if want, ok := operandKind[c.Name]; ok && c.Kind != want {
+			report(pc, "operand-kind", fmt.Sprintf("operand of %s is %s, the VM asserts %s", c.Name, c.Kind, want))
 		}
 		next := true
 		switch c.Name {
